@@ -181,6 +181,7 @@ type world struct {
 	root    string
 	lens    []int
 	engines []*engine
+	slash   *route.Engine
 }
 
 func setup() (*world, error) {
@@ -220,6 +221,12 @@ func setup() (*world, error) {
 	// handler creates is taken by a directory
 	os.WriteFile(filepath.Join(wd.root, "u.txt"), bytes.Repeat([]byte("compress me "), 500), 0o644)
 	os.MkdirAll(filepath.Join(wd.root, "u.txt.hertz.gz.tmp"), 0o755)
+	// ... and one whose compressed copy's own name is taken by a directory
+	os.WriteFile(filepath.Join(wd.root, "v.txt"), bytes.Repeat([]byte("compress me "), 500), 0o644)
+	os.MkdirAll(filepath.Join(wd.root, "v.txt.hertz.gz"), 0o755)
+	// ... and one whose copy can be created but not written (a full file system: the
+	// temporary name leads to /dev/full, re-armed before every request for it)
+	os.WriteFile(filepath.Join(wd.root, "w.txt"), bytes.Repeat([]byte("compress me "), 500), 0o644)
 	opt := func() *config.Options { return rig.Options(nil) }
 	mk := func(name string, fs *app.FS, ranges bool) {
 		fs.Root = wd.root
@@ -234,6 +241,10 @@ func setup() (*world, error) {
 	// several index names of which the first does not exist, compression on: the lookup
 	// of the later names / the generated listing runs on the compressed-file path too
 	mk("index-compress", &app.FS{AcceptByteRange: true, Compress: true, IndexNames: []string{"missing.html", "index.html", longIndex}, GenerateIndexPages: true, PathRewrite: strip}, true)
+	// the file system root itself as the root (what ctx.File and ServeFile use)
+	wd.slash = rig.NewEngine(opt(), func(e *route.Engine) {
+		e.StaticFS("/s", &app.FS{Root: "/", GenerateIndexPages: true, PathRewrite: strip})
+	})
 	return wd, nil
 }
 
@@ -332,7 +343,7 @@ func judge(w *mon.W, en *engine, q reqSpec, m *wire.Message, wd *world) string {
 	}
 	L := q.L
 	file := content(L, L)
-	if q.file == "t.txt" || q.file == longName || q.file == "u.txt" {
+	if q.file == "t.txt" || q.file == longName || q.file == "u.txt" || q.file == "v.txt" || q.file == "w.txt" {
 		file = bytes.Repeat([]byte("compress me "), 500)
 		L = len(file)
 	}
@@ -579,18 +590,52 @@ func work(w *mon.W) {
 				qs = []reqSpec{rg, q, rh, rg, plain}
 			}
 			if r.Chance(5) {
-				lq := reqSpec{method: "GET", file: r.Str(longName, "u.txt"), L: 6000, kind: "file", gzip: true}
+				lq := reqSpec{method: "GET", file: r.Str(longName, "u.txt", "v.txt", "w.txt"), L: 6000, kind: "file", gzip: true}
 				lh := lq
 				lh.method = "HEAD"
 				lp := lq
 				lp.gzip = false
 				qs = []reqSpec{lq, lh, lp, lq}
+				if lq.file == "w.txt" {
+					os.Remove(filepath.Join(wd.root, "w.txt.hertz.gz"))
+					os.Remove(filepath.Join(wd.root, "w.txt.hertz.gz.tmp"))
+					os.Symlink("/dev/full", filepath.Join(wd.root, "w.txt.hertz.gz.tmp"))
+					w.Count("compressed_copy_unwritable_armed", 1)
+				}
 			}
 		}
 		c.Detail = func() interface{} {
 			return map[string]interface{}{"engine": en.name, "requests": fmt.Sprintf("%+v", qs)}
 		}
 		runConn(w, c, wd, en, qs)
+	})
+	// slash-root: an FS rooted at "/" serves the directory "/" like any other directory, and
+	// files by their absolute path
+	w.Cases("slash-root", uint64(w.Pick(20, 200)), func(c *mon.Case) {
+		r := c.R
+		L := wd.lens[r.Intn(len(wd.lens))]
+		abs := filepath.Join(wd.root, fmt.Sprintf("f%d.bin", L))
+		stream := "GET /s/ HTTP/1.1\r\nHost: x\r\n\r\nGET /s" + abs + " HTTP/1.1\r\nHost: x\r\n\r\n"
+		c.Detail = func() interface{} { return map[string]interface{}{"engine": "slash-root", "requests": stream} }
+		sc := sconn.New([][]byte{[]byte(stream)}, sconn.EOF)
+		res := rig.Serve(wd.slash, sc, 4096, false, 30*time.Second)
+		if res.Hang || res.Panic != nil {
+			c.Violate("hang", "Serve did not finish or panicked: %v", res.Panic)
+			return
+		}
+		msgs, err := wire.ParseResponses(res.Out, []string{"GET", "GET"}, true)
+		if err != nil || len(msgs) != 2 {
+			c.Violate("response-malformed", "engine slash-root: %d responses, %v", len(msgs), err)
+			return
+		}
+		w.Count("slash_root_requests", 2)
+		if msgs[0].Status != 200 || !bytes.Contains(msgs[0].Body, []byte("href=")) {
+			c.Violate("fs-response", "engine slash-root (FS{Root: \"/\", GenerateIndexPages: true}), GET /s/ (the root directory): status %d, body %q; want the listing of the directory, as for any other directory", msgs[0].Status, trunc(string(msgs[0].Body), 80))
+			return
+		}
+		if msgs[1].Status != 200 || !bytes.Equal(msgs[1].Body, content(L, L)) {
+			c.Violate("fs-response", "engine slash-root, GET /s%s: status %d, %d body bytes; want the %d bytes of the file", abs, msgs[1].Status, len(msgs[1].Body), L)
+		}
 	})
 	// replaced files: a file that was served compressed (a .hertz.gz sidecar exists next
 	// to it) is replaced by other content — with a newer, an equal or an *older*
